@@ -26,7 +26,18 @@ func init() {
 	areas["c09"] = runC09
 	gen.RegisterOp("c09", "read", func(c *gen.Ctx, raw json.RawMessage) any {
 		in := gen.Into[c09ReadIn](raw)
-		out := c09Read(in)
+		var out c09ReadOut
+		if in.Ending == "stall" {
+			// looks at real time (window of 1 s): not while the machine stalls the process
+			var frozen int64
+			out, frozen = c09Steady(400*time.Millisecond, func() c09ReadOut { return c09Read(in) })
+			if frozen > 0 && !out.Timely {
+				c.E.Count("read:stall-window-waived-machine-stalled")
+				out.Timely = true
+			}
+		} else {
+			out = c09Read(in)
+		}
 		if len(out.Results) > 0 {
 			c.E.Count("read-last:" + in.Via + ":" + out.Results[len(out.Results)-1].class())
 		}
@@ -243,10 +254,16 @@ type c09EncIn struct {
 	Via    string     `json:"via"`
 	Bodies []string   `json:"bodies"`
 	Hdrs   [][]string `json:"hdrs"`
+	// ReadBack: the written stream is read back with the real reader of the same variant
+	// (readDelimitedMessageRaw / StreamDecoder / ReadDelimitedMessage) over a scripted reader
+	// with these caps
+	ReadBack bool  `json:"readBack,omitempty"`
+	Caps     []int `json:"caps,omitempty"`
 }
 type c09EncOut struct {
 	Stream string   `json:"stream"`
 	Bodies []string `json:"bodies"`
+	Back   []c09Res `json:"back,omitempty"`
 }
 
 func c09Hdr(h []string) *conformancev1.Header {
@@ -286,6 +303,11 @@ func c09Enc(in c09EncIn) c09EncOut {
 		}
 	}
 	out.Stream = gen.Hex(buf.Bytes())
+	if in.ReadBack {
+		via := map[string]string{"raw": "raw", "codec": "dec", "wdm": "rdm"}[in.Via]
+		back := c09Read(c09ReadIn{Bytes: out.Stream, Caps: in.Caps, Ending: "eof", Max: 1 << 30, Count: len(out.Bodies) + 1, TimeoutMs: c09NoTimeout, Via: via})
+		out.Back = back.Results
+	}
 	return out
 }
 
@@ -488,6 +510,23 @@ func c09Caps(r *gen.Rand, total int, bounds []int, kind int) []int {
 const c09NoTimeout = 20000 // ms; never fires in cases without a stall
 
 func runC09(c *gen.Ctx) error {
+	// real pipes, real time-outs, child processes: beside everything else (own generator state)
+	var bg sync.WaitGroup
+	bgCtx := *c
+	bgCtx.R = c.R.Fork()
+	cliStalls := c09StallScenarios(c)
+	c.E.Add("clientstall-scenarios", len(cliStalls))
+	bg.Add(2)
+	go func() {
+		defer bg.Done()
+		c09PipeGen(&bgCtx)
+		c09SiteGen(&bgCtx)
+	}()
+	go func() {
+		defer bg.Done()
+		c.DoParallel("clientstall", cliStalls, len(cliStalls))
+	}()
+	defer bg.Wait()
 	r := c.R
 	e := c.E
 	// ---- (A) every cap list (composition) x every truncation offset x both EOF styles,
@@ -701,7 +740,7 @@ func runC09(c *gen.Ctx) error {
 	}
 	e.Add("stall-cases", len(stalls))
 	c.DoParallel("read", stalls, 16)
-	// ---- (F) the writers
+	// ---- (F) the writers: the bytes on the wire against the model's encoder, then read back
 	nEnc := 150
 	if c.Thorough() {
 		nEnc = 3000
@@ -722,6 +761,86 @@ func runC09(c *gen.Ctx) error {
 				hdrs[k] = c09HdrOfLen(r, gen.Pick(r, []int{0, 2, 3, 127, 255, 256, 257, r.Range(2, 400)}))
 			}
 			c.Do("enc", c09EncIn{Via: []string{"", "codec", "wdm"}[i%3], Bodies: []string{}, Hdrs: hdrs})
+		}
+	}
+	// every message size around every power of two and every buffer-ish constant, through each
+	// writer (writeDelimitedMessageRaw, protoEncoder.Encode, WriteDelimitedMessage), alone and in
+	// sequences of several messages, read back under a chunking
+	var encSizes []int
+	for n := 0; n <= 70; n++ {
+		encSizes = append(encSizes, n)
+	}
+	addRange := func(lo, hi int) {
+		for n := lo; n <= hi; n++ {
+			encSizes = append(encSizes, n)
+		}
+	}
+	addRange(120, 136)
+	addRange(250, 260)
+	addRange(508, 516)
+	addRange(1020, 1028)
+	addRange(2044, 2052)
+	addRange(4090, 4100)
+	addRange(8190, 8195)
+	for _, p2 := range []int{16 << 10, 32 << 10, 64 << 10} {
+		addRange(p2-4, p2+4)
+	}
+	bigSizes := []int{1<<20 - 1, 1 << 20, 1<<20 + 1}
+	if c.Thorough() {
+		bigSizes = []int{1<<20 - 4, 1<<20 - 3, 1<<20 - 2, 1<<20 - 1, 1 << 20, 1<<20 + 1, 1<<20 + 2, 1<<20 + 3, 1<<20 + 4}
+	}
+	encOne := func(via string, sizes []int, readBack bool) {
+		in := c09EncIn{Via: via, Bodies: []string{}, Hdrs: [][]string{}, ReadBack: readBack}
+		total := 0
+		var bounds []int
+		for _, n := range sizes {
+			if via == "raw" {
+				in.Bodies = append(in.Bodies, gen.Hex(r.Bytes(n)))
+			} else {
+				if n == 1 {
+					n = 2
+				}
+				in.Hdrs = append(in.Hdrs, c09HdrOfLen(r, n))
+			}
+			total += 4 + n
+			bounds = append(bounds, total)
+		}
+		if readBack {
+			kind := r.Intn(8)
+			if total > 3000 && (kind == 0 || kind == 2 || kind == 5 || kind >= 6) {
+				kind = gen.Pick(r, []int{1, 3, 4})
+			}
+			in.Caps = c09Caps(r, total, bounds, kind)
+		}
+		e.Count("enc-dense:" + via)
+		c.Do("enc", in)
+	}
+	for _, via := range []string{"raw", "codec", "wdm"} {
+		for _, n := range encSizes {
+			encOne(via, []int{n}, true)
+		}
+		for _, n := range bigSizes {
+			if via == "raw" || c.Thorough() {
+				encOne(via, []int{n}, false)
+			}
+		}
+		// sequences: a boundary size followed and preceded by other messages (a frame that loses or
+		// gains bytes puts everything after it out of step)
+		nSeq := 40
+		if c.Thorough() {
+			nSeq = 400
+		}
+		for i := 0; i < nSeq; i++ {
+			k := r.Range(2, 4)
+			sizes := make([]int, k)
+			for j := range sizes {
+				if r.Chance(1, 2) {
+					sizes[j] = gen.Pick(r, encSizes)
+				} else {
+					sizes[j] = gen.Pick(r, []int{0, 2, 3, 5, 17})
+				}
+			}
+			encOne(via, sizes, true)
 		}
 	}
 	// ---- (G) the JSON variant: same kind of sequences, judged by the property only
@@ -760,6 +879,33 @@ func runC09(c *gen.Ctx) error {
 		c.Do("json", c09JSONIn{Hdrs: hdrs, Caps: caps, Ending: gen.Pick(r, c09Endings), Cut: cut, Count: len(hdrs) + 1})
 	}
 	{
+		// the JSON variant with messages whose text crosses 4 KiB, 8 KiB, 64 KiB (buffer sizes of
+		// writers and of the tokenizer), between two small messages, written by the real encoder and
+		// read back by the real decoder
+		var big []int
+		for l := 4060; l <= 4100; l++ {
+			big = append(big, l)
+		}
+		for l := 8150; l <= 8200; l += 2 {
+			big = append(big, l)
+		}
+		for l := 65490; l <= 65540; l += 5 {
+			big = append(big, l)
+		}
+		if c.Thorough() {
+			for l := 1<<20 - 40; l <= 1<<20+8; l += 6 {
+				big = append(big, l)
+			}
+		}
+		for _, l := range big {
+			hdrs := [][]string{{"a", "b"}, {"big", c09Word(r, l)}, {"z"}}
+			probe := c09JSON(c09JSONIn{Hdrs: hdrs, Caps: []int{}, Ending: "eof", Cut: -1, Count: 0})
+			kind := gen.Pick(r, []int{1, 3, 4})
+			e.Count("json-big")
+			c.Do("json", c09JSONIn{Hdrs: hdrs, Caps: c09Caps(r, probe.Len, probe.TextEnds, kind), Ending: gen.Pick(r, []string{"eof", "eofWithData"}), Cut: -1, Count: 4})
+		}
+	}
+	{
 		// one stream: every cut offset, and every two-part split of the whole
 		hdrs := [][]string{{"ab", "c}"}, {}, {"x\"y", "", "z"}}
 		probe := c09JSON(c09JSONIn{Hdrs: hdrs, Caps: []int{}, Ending: "eof", Cut: -1, Count: 0})
@@ -776,6 +922,5 @@ func runC09(c *gen.Ctx) error {
 		}
 	}
 	c09PeerGen(c)
-	c09SiteGen(c)
 	return nil
 }
